@@ -8,6 +8,7 @@ import (
 
 	"github.com/gobuffalo/plush/v5"
 	"github.com/gobuffalo/plush/v5/helpers/hctx"
+	"github.com/gobuffalo/plush/v5/helpers/helptest"
 
 	"verifharness/internal/core"
 )
@@ -144,6 +145,49 @@ func c04Run(b *core.B) {
 		"<%= truncate(v_str_cjk) %>", "<%= truncate(v_str_cjk, {size: 30}) %>", "<%= truncate(v_str_cjk, {size: 19, trail: \"…\"}) %>",
 	} {
 		cell("special", t)
+	}
+	// a context that is not a *plush.Context: Render and Exec take the interface
+	// (helptest's context ships with the library); nil data maps for the constructors
+	for _, t := range []string{
+		"<%= for (x) in xs { %><%= x %><% } %>", "<% for (k, v) in m { %><%= k %><% } %>", "<%= xs[0].Name %>", "<%= m[\"a\"].Label() %>", "<%= f().Name %>", "<%= f().Tags[0] %>",
+		"<% let g = fn(a) { return a } %><%= g(1) %>", "<%= if (nope) { %>T<% } %>", "<%= xs %>", "<% let a = [1] %><% a[0] = 2 %><%= a %>", "<%= f() { %>B<% } %>", "<%= nope() %>",
+	} {
+		idx++
+		if !b.Mine(idx) || !b.Begin("foreign context: "+t) {
+			continue
+		}
+		var out string
+		var err error
+		pan := core.Guard(func() {
+			fc := helptest.NewContext()
+			fc.Set("xs", []T{newT("a"), newT("b")})
+			fc.Set("m", map[string]T{"a": newT("ma")})
+			fc.Set("f", func() T { return newT("f") })
+			out, err = plush.Render(t, fc)
+		})
+		b.Count("foreign-context")
+		b.NonTrivialDistinct()
+		if pan != nil {
+			b.Violate("foreign-context/"+pan.Sig(), "panic: "+pan.Value)
+		} else if err != nil && out != "" {
+			b.Violate("universal:error-with-output", fmt.Sprintf("err=%q out=%q", err, out))
+		}
+	}
+	for _, t := range []string{"x<%= 1 %>", "<% let a = 1 %><%= a %>", "<%= len(\"ab\") %>"} {
+		idx++
+		if !b.Mine(idx) || !b.Begin("nil data: "+t) {
+			continue
+		}
+		pan := core.Guard(func() {
+			_, _ = plush.BuffaloRenderer(t, nil, nil)
+			_, _ = plush.Render(t, plush.NewContextWith(nil))
+			_, _ = plush.Render(t, plush.NewContextWithOuter(nil, plush.NewContext()))
+		})
+		b.Count("nil-data-map")
+		b.NonTrivialDistinct()
+		if pan != nil {
+			b.Violate("nil-data-map/"+pan.Sig(), "panic: "+pan.Value)
+		}
 	}
 	// pure scripts through RunScript
 	for _, sc := range []string{"let a = 1\n a = a + 1", "let a = [1,2]\n a[5] = 1", "print(nope)", "let f = fn(x) { return x }\n f()", "for (x) in 5 { }", "if (true) { return 1 }", "1 / 0", "let a = {}\n a.b = 1", ")", "", "let x = truncate(5, 5)"} {
